@@ -110,16 +110,44 @@ class C15(Plugin):
         o5 = [[int(a == b) for b in inst] for a in inst]
         o6 = int(NamableReference(prefix=p, identifier=i, name=name) == NamableReference(prefix=p, identifier=i)
                  and NamedReference(prefix=p, identifier=i, name=name) == NamedReference(prefix=p, identifier=i, name=name + "x"))
-        o7 = int(hash(inst[1]) == hash(inst[2]) == hash(inst[3]) and len({inst[1], inst[2], inst[3]}) == 1)
         r1, r2, r3 = Reference(prefix=p, identifier=i), Reference(prefix=p2, identifier=i2), Reference(prefix=p3, identifier=i3)
-        o8 = [int(r1 < r2), int(r2 < r1), int(r2 < r3), int(r1 < r3), int(r1 < r1), [[r.prefix, r.identifier] for r in sorted([r1, r2, r3])]]
+        pyd = [Reference, NamableReference, NamedReference]
+
+        def mk_as(c, pp, ii, nn=name):
+            return c(prefix=pp, identifier=ii) if c is Reference else c(prefix=pp, identifier=ii, name=nn)
+
+        # equality and hashing depend ONLY on the pair, across the three pydantic classes: equal pairs are equal and hash alike,
+        # different pairs are different (also when only the identifier, or only the letter case of the prefix, differs)
+        trio = [(p, i), (p2, i2), (p3, i3), (p.swapcase(), i), (p, i + "x")]
+        laws = hash(inst[1]) == hash(inst[2]) == hash(inst[3]) and len({inst[1], inst[2], inst[3]}) == 1
+        for a in trio:
+            for b in trio:
+                for ca in pyd:
+                    for cb in pyd:
+                        x, y = mk_as(ca, *a), mk_as(cb, *b, nn=name + "y")
+                        laws = laws and ((x == y) == (a == b)) and ((x != y) == (a != b)) and (a != b or hash(x) == hash(y))
+        o7 = int(bool(laws))
+
+        def lt(a, b):
+            """'<' must give the same answer whatever pydantic classes the two references have; -1 if the classes disagree"""
+            answers = {bool(mk_as(ca, *a) < mk_as(cb, *b)) for ca in pyd for cb in pyd}
+            return int(answers.pop()) if len(answers) == 1 else -1
+
+        o8 = [lt((p, i), (p2, i2)), lt((p2, i2), (p, i)), lt((p2, i2), (p3, i3)), lt((p, i), (p3, i3)), lt((p, i), (p, i)),
+              [[r.prefix, r.identifier] for r in sorted([r1, NamableReference(prefix=p2, identifier=i2, name=name), NamedReference(prefix=p3, identifier=i3, name=name)])]]
         o9 = []
         for x in inst:
-            try:
-                x.prefix = "zzz"
-                o9.append(0)
-            except Exception:
-                o9.append(int(x.prefix == p))
+            ok = True
+            fields = ["prefix", "identifier"] + (["name"] if hasattr(x, "name") else [])
+            before = [getattr(x, f) for f in fields]
+            for f in fields:
+                for attempt in (lambda: setattr(x, f, "zzz"), lambda: delattr(x, f)):
+                    try:
+                        attempt()
+                        ok = False          # an assignment or deletion went through
+                    except Exception:
+                        pass
+            o9.append(int(ok and [getattr(x, f, None) for f in fields] == before))
         if recs is None:
             o10 = None
         else:
@@ -147,14 +175,27 @@ class C15(Plugin):
         fd, path = tempfile.mkstemp(suffix=".tsv", dir=os.path.join(ROOT, "_build", "tmp"))
         os.close(fd)
         try:
-            write_triples([Triple(subject=r1, predicate=r2, object=r3)], path)
-            back = read_triples(path)
-            o11 = int(len(back) == 1 and [(t.prefix, t.identifier) for t in (back[0].subject, back[0].predicate, back[0].object)]
-                      == [(r.prefix, r.identifier) for r in (r1, r2, r3)])
+            # one triple; the three rotations of it in one file; a custom header; every reference class as reader; a gzipped file
+            t1 = Triple(subject=r1, predicate=r2, object=r3)
+            want1 = [(r.prefix, r.identifier) for r in (r1, r2, r3)]
+            rot = [Triple(subject=a, predicate=b, object=c_) for a, b, c_ in ((r1, r2, r3), (r2, r3, r1), (r3, r1, r2))]
+            ok = True
+            for triples, kw_w, kw_r, target in (([t1], {}, {}, path), (rot, {}, {}, path), ([t1], {"header": ["s", "p", "o"]}, {}, path),
+                                                ([t1], {}, {"reference_cls": NamableReference}, path), (rot, {}, {}, path + ".gz")):
+                write_triples(triples, target, **kw_w)
+                back = read_triples(target, **kw_r)
+                got = [[(t.prefix, t.identifier) for t in (b.subject, b.predicate, b.object)] for b in back]
+                exp = [[(t.prefix, t.identifier) for t in (b.subject, b.predicate, b.object)] for b in triples]
+                ok = ok and got == exp
+                if kw_r:
+                    ok = ok and all(type(b.subject) is kw_r["reference_cls"] for b in back)
+            o11 = int(ok)
         except Exception:
             o11 = 0
         finally:
-            os.unlink(path)
+            for f in (path, path + ".gz"):
+                if os.path.exists(f):
+                    os.unlink(f)
         return case, [o0, o1, o2, o3, o4, o5, o6, o7, o8, o9, o10, o11]
 
     def nontrivial(self, case, obs):
